@@ -9,6 +9,9 @@ Two-run (relational) property, decided as LEMMAS over the contracts of C10 / C12
   * scaling by s > 0 multiplies d2 by s^2, hence distances (and every length spec, a sum of distances) by s, leaves
     ratios of lengths unchanged, and multiplies every closed-form volume spec of C13 by s^3.
 Renumbering invariance of sums needs a re-indexing (induction) lemma that z3 cannot do; it stays bounded only.
+
+C11's own carriers (register) are stated in the vocabulary of contracts/C10.py, whose import installs the process-wide library models
+of pyvc/ext_C10.py: vcheck therefore loads this module only for C11 itself (its source mentions ext_C10 -- see vcheck.load_registry).
 """
 import ast
 import inspect
@@ -20,8 +23,81 @@ from contracts import C13
 DEPENDS = ["C10", "C12", "C13"]
 
 
+TREE = "swcgeom/core/tree.py"
+
+
 def register(R):
-    pass
+    """C11's own carriers: A TRANSFORM'S RESULT IS MEASURED BY ITS OWN COORDINATES.
+
+    The lemmas below turn "every feature equals a spec that reads coordinates through d2" (C10 / C13) and "the transforms apply the
+    stated map" (C12) into pose invariance -- PROVIDED the feature of the transformed tree is computed from the transformed tree.  The C10
+    contracts state each query on an object as a setup describes it (a plain field table); an object that reaches a query THROUGH A
+    HISTORY -- measured, then copied by a transform (`DictSWC.copy` = deepcopy: every instance attribute travels), then given new
+    coordinates -- is what the property actually quantifies over ("rotating ... a neuron changes none of ...": the neuron was usually
+    looked at before).  So the queries are verified here once more on such objects, the history being the REAL code run in the setup
+    (`S.call`): the earlier query, the real `copy()`, the coordinate columns replaced the way `AffineTransform.apply` replaces them
+    (`y.ndata[name] = new array`), or the real `Scale.transform` chain as a whole."""
+    from contracts.C10 import dist, tree_of_size
+    from contracts.common import col
+    from pyvc.values import to_z3
+
+    def own_length(E, v, o):
+        t = v["self"]
+        n = col(t, "pid").n
+        pid = col(t, "pid").arr
+        ys = [dist(E, t, z3.Select(pid, i), z3.IntVal(i)) for i in range(1, n)]
+        return to_z3(v["result"], "real") == (sum(ys) if ys else z3.RealVal(0))
+
+    def measured(S, n, query=True):
+        t0 = tree_of_size(S, n, name="t0")
+        t0.frozen = False  # the earlier query ran on the caller's own object: it may have kept whatever it wanted there
+        S.assume(z3.Select(col(t0, "pid").arr, 0) == -1)
+        if query:
+            S.call((t0, "length"))
+        return t0
+
+    def moved_copy(n, query):
+        def setup(S):
+            t0 = measured(S, n, query)
+            y = S.call((t0, "copy"))  # what every transform does first (AffineTransform.apply, sort_tree, cat_tree ...)
+            nd = y.fields["ndata"]
+            for c in "xyz":  # ... and then: y.ndata[names.x] = <new coordinates>; ANY new coordinates (rotation, scaling, translation, jitter)
+                nd.items[c] = S.arr("real", n=n, name=f"moved_{c}")
+            return dict(self=y)
+
+        return setup
+
+    def moved_in_place(n):
+        def setup(S):
+            t0 = measured(S, n)
+            for c in "xyz":
+                t0.fields["ndata"].items[c] = S.arr("real", n=n, name=f"moved_{c}")
+            return dict(self=t0)
+
+        return setup
+
+    def scaled_by_the_real_chain(n):
+        def setup(S):
+            import swcgeom.transforms.geometry as G
+
+            t0 = measured(S, n)
+            s = S.real("s")
+            S.assume(s.z > 0)
+            y = S.call((G.Scale, "transform"), t0, s, s, s)
+            return dict(self=y)
+
+        return setup
+
+    variants = {}
+    for n in (2, 3):
+        variants[f"copy-of-a-measured-tree-of-{n}-nodes-with-new-coordinates"] = moved_copy(n, True)
+        variants[f"copy-of-a-fresh-tree-of-{n}-nodes-with-new-coordinates"] = moved_copy(n, False)
+        variants[f"measured-tree-of-{n}-nodes-given-new-coordinates-in-place"] = moved_in_place(n)
+        variants[f"measured-tree-of-{n}-nodes-scaled-by-Scale.transform"] = scaled_by_the_real_chain(n)
+    R.add(f"{TREE}:Tree.length", prop="C11", variants=variants,
+          ensures=[("a-transformed-tree-is-measured-by-its-own-coordinates-(sum-of-its-parent-child-distances)", own_length)],
+          notes="the object reaches the query through a history run on the real code: measured, copied (deepcopy), coordinates replaced / Scale.transform; "
+                "2 and 3 nodes, parent pointers and all coordinates symbolic")
 
 
 def _spec_reads_coordinates_only_through_d2():
